@@ -1,0 +1,5 @@
+//go:build !verif
+
+package iotools
+
+func simYield(any, string, int64) {}
